@@ -9,9 +9,10 @@ ASSUME PrintT(ToJson([CT |-> CT, BT |-> BT]))
 
 \* D: fluid-only DUMMY block on top, detailed changer;  NoDet: the same with the default (non-detailed) changer;
 \* TopD(types, hs, top, hd, det): an ordinary block of type `top` (height hd) on top
-D(types, hs, hd) == [types |-> types, hs |-> hs, hd |-> hd, top |-> "", det |-> TRUE]
-NoDet(types, hs, hd) == [types |-> types, hs |-> hs, hd |-> hd, top |-> "", det |-> FALSE]
-TopD(types, hs, top, hd, det) == [types |-> types, hs |-> hs, hd |-> hd, top |-> top, det |-> det]
+D(types, hs, hd) == [types |-> types, hs |-> hs, hd |-> hd, top |-> "", det |-> TRUE, hot |-> 0]
+NoDet(types, hs, hd) == [types |-> types, hs |-> hs, hd |-> hd, top |-> "", det |-> FALSE, hot |-> 0]
+Hot(d, lvl) == [d EXCEPT !.hot = lvl]                      \* the same design built hot (Thot = 250 C x lvl, Tinput = 0 C)
+TopD(types, hs, top, hd, det) == [types |-> types, hs |-> hs, hd |-> hd, top |-> top, det |-> det, hot |-> 0]
 \* growth sets (closed under inverse)
 G3  == {<<5, 6>>, <<1, 1>>, <<6, 5>>}
 G5  == {<<5, 6>>, <<10, 11>>, <<1, 1>>, <<11, 10>>, <<6, 5>>}
@@ -19,7 +20,7 @@ G2x == {<<1, 2>>, <<1, 1>>, <<2, 1>>}                       \* dyadic: the real 
 
 \* quick exhaustive: the standard column (shield / fuel / plenum), fuel over fuel, cross links, an unlinked pin, a tight dummy
 DesignsQuick == {
-    D(<<"fuel", "plenum">>, <<5, 4>>, 3),
+    Hot(D(<<"fuel", "plenums">>, <<5, 4>>, 3), 2),                   \* built at 500 C, plenum clad sleeved (marginally) over the fuel clad
     NoDet(<<"shield", "fuel">>, <<4, 5>>, 3),
     D(<<"fuelb", "bigfuel">>, <<5, 5>>, 2),
     NoDet(<<"fuel", "afuel">>, <<5, 3>>, 4),
@@ -35,22 +36,25 @@ DesignsThorough == DesignsQuick \cup {
     NoDet(<<"fuel", "plenum">>, <<5, 4>>, 3),
     TopD(<<"fuel", "fuel">>, <<5, 4>>, "shield", 3, FALSE),
     TopD(<<"fuelb">>, <<6>>, "bigfuel", 4, FALSE),
-    TopD(<<"fuel">>, <<5>>, "fuel", 4, FALSE) }
-DesignsEmit == {
+    TopD(<<"fuel">>, <<5>>, "fuel", 4, FALSE),
     D(<<"fuel", "plenum">>, <<5, 4>>, 3),
+    Hot(NoDet(<<"fuel", "plenumr">>, <<5, 4>>, 3), 1) }
+DesignsEmit == {
+    Hot(D(<<"fuel", "plenums">>, <<5, 4>>, 3), 2),
     NoDet(<<"fuelb", "bigfuel">>, <<5, 5>>, 2),
     TopD(<<"fuel">>, <<5>>, "plenum", 4, FALSE),
     TopD(<<"fuel">>, <<5>>, "plenum", 4, TRUE) }
 DesignsDeep == { NoDet(<<"fuel", "plenum">>, <<4, 4>>, 16), TopD(<<"fuel">>, <<4>>, "plenum", 8, FALSE) }
 \* static cases: target-component choice and link detection over many block designs (one call each)
 TopCases(S) == {TopD(<<t1>>, <<4>>, t2, 4, det) : t1 \in {"fuel", "shield"}, t2 \in S, det \in BOOLEAN}
-DesignsCases == {D(<<t1, t2>>, <<4, 4>>, 4) : t1, t2 \in DOMAIN BT} \cup {NoDet(<<t>>, <<4>>, 4) : t \in DOMAIN BT} \cup TopCases(DOMAIN BT)
+HotCases == {Hot(D(<<t1, t2>>, <<4, 4>>, 4), 2) : t1, t2 \in {"fuel", "plenums", "plenumr"}}     \* marginal overlaps, built hot, both orders
+DesignsCases == {D(<<t1, t2>>, <<4, 4>>, 4) : t1, t2 \in DOMAIN BT} \cup {NoDet(<<t>>, <<4>>, 4) : t \in DOMAIN BT} \cup TopCases(DOMAIN BT) \cup HotCases
 DesignsCasesQuick == {D(<<t1, t2>>, <<4, 4>>, 4) : t1 \in {"fuel", "shield", "liner", "wires"}, t2 \in DOMAIN BT}
-                     \cup {NoDet(<<t>>, <<4>>, 4) : t \in DOMAIN BT} \cup TopCases({"plenum", "fuel", "afuel", "liner", "nofuel"})
+                     \cup {NoDet(<<t>>, <<4>>, 4) : t \in DOMAIN BT} \cup TopCases({"plenum", "fuel", "afuel", "liner", "nofuel"}) \cup HotCases
 TriplesQuick == {<<0, 1, 2>>, <<2, 0, 1>>}
 TriplesThorough == {<<0, 1, 2>>, <<2, 0, 1>>, <<1, 1, 0>>, <<2, 1, 0>>}
-TriplesEmit == {<<0, 1, 2>>}
-TriplesOther == {<<2, 0, 1>>}
+TriplesEmit == {<<-1, 0, 2>>}        \* -250 C, exactly 0.0 C, 500 C (block means such as -1/2 and 1 in between)
+TriplesOther == {<<2, -1, 1>>}
 NoTriples == {}
 FromBoth == BOOLEAN
 FromRef == {FALSE}
